@@ -75,6 +75,7 @@ def k1(ctx, kr):
         if st['enc'] in ('utf8', 'utf8-bom', 'utf16le-bom', 'utf16be-bom', 'windows1252'):
             if text != 'T':
                 _add(kr, 'C14/K1/decoded-text-differs/' + st['enc'], 'a program stored as %s is read as %s instead of its text (decoders tried: %s)' % (st['enc'], repr(text) if text else 'an error', st['used']), wit, ('encoding', (st['enc'],)))
+        if st['enc'] != 'binary' and text == 'T' and len(kr.validate) < 6: kr.validate.append(('encoding', (st['enc'],)))
         if len(kr.samples) < 6: kr.samples.append({'file': wit, 'result': text if text else 'Err'})
     M.explore(entry, on_path)
     kr.queries += M.stats['smt']
